@@ -196,10 +196,18 @@ def main(tier, replay=None):
             d0 = scratch.sub()
             main_path, paths = render.write_program(pr, d0)
             sources.append(("urand%d" % k, open(main_path).read(), d0))
+        # constant arithmetic on numbers far beyond 64 bits (products of products, long literals): every operator's
+        # action runs on them; out of the specification's numeric model, so only the outcome typing is decided
+        big = "proto big\n\nconst WORD = 0xFFFFFFFFFFFFFFFF\nconst W4 = WORD * WORD * WORD * WORD\n" \
+              "const W20 = W4 * W4 * W4 * W4 * W4\nconst BACK = W20 / WORD\nconst DIFF = W20 - W4 * WORD\n" \
+              "const SUM = W20 + W20\nconst SMALL = WORD / W20\nconst LIT = %s / 3\nconst LIT2 = %s * 2 - 1\n\n" \
+              "message Top {\n    bool[WORD / WORD] a = 1\n}\n" % ("9" * 400, "7" * 1200)
+        sources.append(("bigconst", big, scratch.sub()))
+        sources.append(("bigconst2", big.replace(" / ", "/").replace(" * ", "*"), scratch.sub()))
         empty = {"files": [{"name": "x", "decls": []}], "main": 1, "trad": False}
         for si, (name, text, srcdir) in enumerate(sources):
             rng = random.Random("c09t/%d/%s" % (seed, name))
-            for mi, t in enumerate(text_mutants(text, rng, ntext)):
+            for mi, t in enumerate(([text] if name.startswith("bigconst") else []) + text_mutants(text, rng, ntext)):
                 d = scratch.sub()
                 # imports of the original keep working: mutants live next to copies of the siblings
                 for sib in glob.glob(os.path.join(srcdir, "*.bitproto")):
